@@ -133,6 +133,13 @@ impl St {
                     for t in table {
                         v.push(tn(*t));
                     }
+                } else {
+                    // the production table: a polynomial fingerprint of all its slots (the `table` op prints them all)
+                    let mut acc: u128 = 0;
+                    for t in table {
+                        acc = (acc * 1_000_003 + (*t as u128 + 1)) % 2_305_843_009_213_693_951u128;
+                    }
+                    v.push(tn(acc as i128));
                 }
                 v.push(tn(addrs.len()));
                 for a in addrs {
@@ -524,13 +531,9 @@ fn run(case: &Case, out: &mut Out) {
                     }
                     _ => {
                         let big = st.map.backends.get(&cname).and_then(|l| l.load_balancing.verif_table_view()).is_some_and(|v| v.0 > 64);
-                        if big && key.is_some() && picks[0] >= 0 {
-                            // production-size table: its contents are not modelled
-                            o.push(ts("any"));
-                        } else {
-                            o.push(ts("pick"));
-                            o.push(tn(picks[0]));
-                        }
+                        let _ = big;
+                        o.push(ts("pick"));
+                        o.push(tn(picks[0]));
                         if key.is_some() && (kind == Kind::Hrw || kind == Kind::Maglev) {
                             // affinity: same key, nothing changed in between
                             if let Ok((id, ad)) = st.map.backend_from_cluster_id_with_key(&cname, key) {
@@ -688,6 +691,16 @@ fn run(case: &Case, out: &mut Out) {
                     }
                 }
                 out.obs(&[got.map(|g| tn(st.hidx(&g))).unwrap_or(ts("none"))]);
+            }
+            "table" => {
+                // c : every slot of a table-based policy's table (the production Maglev table: 65537 slots)
+                let mut bytes: Vec<u8> = vec![];
+                if let Some(l) = st.map.backends.get(&cluster_of(a[0].n())) {
+                    if let Some((_size, table, _addrs)) = l.load_balancing.verif_table_view() {
+                        bytes = table.iter().map(|t| (*t).min(255) as u8).collect();
+                    }
+                }
+                out.obs(&[tb(&bytes)]);
             }
             "bb" => {
                 // black-box tier (shared with C16): a real worker; only the C12 verdicts are kept here:
